@@ -15,7 +15,7 @@ using namespace vf; using namespace mxh;
 using c10::OsslCtx; using c10::OsslConn; using c10::OsslCtxConfig; using c10::OsslSessionPtr;
 
 #ifndef C10_DTLS
-# define C10_DTLS 0
+# define C10_DTLS 1
 #endif
 
 // ------------------------------------------------------------------ static description of the candidate matrix
@@ -185,7 +185,8 @@ static void build_caps() {
     // versions and suites
     for (int v = 0; v < NVER; v++) {
         if (is_dtls(v) && !C10_DTLS) { T += fmt("version %-8s not generated (DTLS transport disabled in this build)\n", ver_name(v)); continue; }
-        bool mxv = matrixSslTlsVersionRangeSupported(ver_bit(v), ver_bit(v)) == PS_TRUE;
+        // matrixSslTlsVersionRangeSupported() only knows the TLS versions; for DTLS the ClientHello probe below decides
+        bool mxv = is_dtls(v) ? true : matrixSslTlsVersionRangeSupported(ver_bit(v), ver_bit(v)) == PS_TRUE;
         std::string in, out;
         for (size_t s = 0; s < N_ALL_SUITES; s++) {
             const SuiteD &d = ALL_SUITES[s];
@@ -245,6 +246,8 @@ struct Case {
     size_t chunk, piece;    // MatrixSSL receive chunking / SentData piece size
     bool mx_closes_first;
     int key_update;         // TLS 1.3: 0 none, 1 OpenSSL not-requested, 2 OpenSSL update-requested
+    int mtu = 0;            // DTLS: path MTU configured on both sides
+    bool os_cookie = false; // DTLS: OpenSSL server does the HelloVerifyRequest cookie exchange
     std::vector<std::pair<int, size_t>> sched[2]; // per connection: (direction 0 = MatrixSSL->OpenSSL, 1 = OpenSSL->MatrixSSL; size)
     uint32_t pseed;
     uint64_t eseed;
@@ -252,12 +255,12 @@ struct Case {
         const SuiteD &s = ALL_SUITES[suite];
         std::string p;
         for (int k = 0; k < 2; k++) { p += k ? " | " : ""; for (auto &m : sched[k]) p += fmt("%s%zu ", m.first ? "O>M:" : "M>O:", m.second); }
-        return fmt("%s ver=%s suite=%s srv-id=%s cauth=%s group=%s%s ssig=%s csig=%s resume=%s ems(mx=%d,ossl=%d) ossl(tickets=%d,etm=%d,maxfrag=%d,sends-root=%d) chunk=%zu piece=%zu close-first=%s keyupd=%d payloads=[%s] eseed=%llu",
+        return fmt("%s ver=%s suite=%s srv-id=%s cauth=%s group=%s%s ssig=%s csig=%s resume=%s ems(mx=%d,ossl=%d) ossl(tickets=%d,etm=%d,maxfrag=%d,sends-root=%d) chunk=%zu piece=%zu close-first=%s keyupd=%d dtls(mtu=%d,ossl-cookie=%d) payloads=[%s] eseed=%llu",
                    mx_client ? "MatrixSSL-client/OpenSSL-server" : "OpenSSL-client/MatrixSSL-server", ver_name(ver), s.std_name,
                    sident >= 0 ? ALL_IDENTS[sident].name : "psk", cauth ? ALL_IDENTS[cident].name : "off", group >= 0 ? ALL_GROUPS[group].name : "-",
                    hrr_first >= 0 ? fmt("(HRR from %s)", ALL_GROUPS[hrr_first].name).c_str() : "",
                    ssig >= 0 ? ALL_SIGS[ssig].name : "default", csig >= 0 ? ALL_SIGS[csig].name : "default", resume_name[resume], mx_ems, (int) os_ems,
-                   (int) os_tickets, (int) os_etm, os_max_frag, (int) os_send_root, chunk, piece, mx_closes_first ? "MatrixSSL" : "OpenSSL", key_update, p.c_str(), (unsigned long long) eseed);
+                   (int) os_tickets, (int) os_etm, os_max_frag, (int) os_send_root, chunk, piece, mx_closes_first ? "MatrixSSL" : "OpenSSL", key_update, mtu, (int) os_cookie, p.c_str(), (unsigned long long) eseed);
     }
 };
 
@@ -318,7 +321,7 @@ static Case draw_case(Tape &t) {
     k.eseed = t.u64();
     k.pseed = t.u32();
     k.mx_client = !t.coin();                   // zero tape: MatrixSSL client
-    std::vector<int> vers; for (int v : { TLS12, TLS13, TLS11, DTLS12, DTLS10 }) if (G.ver[v]) vers.push_back(v);
+    std::vector<int> vers; for (int v : { TLS12, TLS13, TLS11 }) if (G.ver[v]) vers.push_back(v);   // DTLS is decided by the last draws of this function
     k.ver = wpick(t, vers);
     k.suite = wpick(t, G.suites[k.ver]);
     const SuiteD &sd = ALL_SUITES[k.suite];
@@ -376,6 +379,26 @@ static Case draw_case(Tape &t) {
             k.sched[c].push_back({ dir, draw_size(t) });
         }
     }
+    // ---- DTLS (drawn last: older replay tapes, which end before this point, stay TLS cases).  A TLS 1.2 / TLS 1.1 tuple is carried over
+    // to DTLS 1.2 / DTLS 1.0 when every component is also in the DTLS part of the capability table.
+    if (t.below(3) == 1 && k.ver != TLS13) {
+        int dv = k.ver == TLS12 ? DTLS12 : DTLS10;
+        bool ok = G.ver[dv] && std::find(G.suites[dv].begin(), G.suites[dv].end(), k.suite) != G.suites[dv].end();
+        unsigned m = (unsigned) t.below(5); bool ck = t.coin();
+        if (ok) {
+            k.ver = dv;
+            // MatrixSSL fragments only Certificate messages.  Its other flight messages must fit the PMTU: ServerKeyExchange with an RSA-3072
+            // signature is 514 bytes (so 576 is the smallest PMTU for a MatrixSSL server), and a MatrixSSL *client* cannot fragment its
+            // ClientHello at all (matrixSslNewClientSession returns DTLS_MUST_FRAG), which with an OpenSSL ticket inside can reach ~1.3 kB
+            // once the ticket carries a client certificate.  Those API-level limits define the domain here; they are reported, not tested.
+            static const int mtus_srv[5] = { 1400, 1400, 1000, 576, 576 }, mtus_cli[5] = { 1400, 1400, 1000, 1400, 1000 };
+            k.mtu = k.mx_client ? mtus_cli[m] : mtus_srv[m]; k.os_cookie = ck;
+            if (k.mx_client && k.resume == R_TICKET && k.cauth) { k.resume = R_SID; k.os_tickets = false; }
+            k.os_max_frag = 0;   // DTLS: SSL_write never splits a datagram, a smaller max_send_fragment would just make OpenSSL refuse the write
+            size_t maxp = (size_t) k.mtu - 150;   // one application record per datagram, below the path MTU on both sides
+            for (int c = 0; c < 2; c++) for (auto &msg : k.sched[c]) if (msg.second > maxp) msg.second = 1 + msg.second % maxp;
+        }
+    }
     return k;
 }
 
@@ -411,9 +434,10 @@ static std::vector<uint16_t> sigs_list_mx(int first, int ver) {
 }
 
 static bool g_debug = false;
-static void dump(const char *dir, const Bytes &b) {
+static void dump(const char *dir, const Bytes &b, bool dtls = false) {
     fprintf(stderr, "   %s %zu bytes:", dir, b.size());
-    for (auto &r : parse_records(b, false)) fprintf(stderr, " [type %d ver %04x len %zu]", r.type, r.ver, r.len);
+    for (auto &r : parse_records(b, dtls)) fprintf(stderr, " [type %d ver %04x epoch %u seq %llu len %zu%s]", r.type, r.ver, r.epoch, (unsigned long long) r.seq, r.len,
+                                                   r.type == 22 && r.epoch == 0 ? fmt(" hs=%d", b[r.off + r.hdr]).c_str() : "");
     fprintf(stderr, "\n");
 }
 struct Link {
@@ -422,11 +446,11 @@ struct Link {
     bool dtls = false;
     bool step() {
         bool moved = false;
-        M.pump_out(k->piece);
-        if (dtls) { while (!M.dgram_out.empty()) { O->feed_dgram(M.dgram_out.front()); M.dgram_out.pop_front(); moved = true; } }
+        M.pump_out(k->piece);   // (DTLS: mxh drains only when output is pending; GetOutdata on an empty buffer would mean "retransmit timer fired")
+        if (dtls) { while (!M.dgram_out.empty()) { if (g_debug) dump("M>O dgram", M.dgram_out.front(), true); O->feed_dgram(M.dgram_out.front()); M.dgram_out.pop_front(); moved = true; } }
         else if (!M.wire_out.empty()) { Bytes b = M.take_wire(); if (g_debug) dump("M>O", b); O->feed(b.data(), b.size()); moved = true; }
         if (!O->failed()) { if (!O->handshake_done()) O->handshake(); if (O->handshake_done() && !O->failed()) O->read_all(); }
-        if (dtls) { for (auto &d : O->take_dgrams()) { if (M.ssl && !M.failed) M.feed_dgram(d); moved = true; } }
+        if (dtls) { for (auto &d : O->take_dgrams()) { if (g_debug) dump("O>M dgram", d, true); if (M.ssl && !M.failed) { int rc = M.feed_dgram(d); if (g_debug) fprintf(stderr, "   M.feed_dgram -> rc=%d complete=%d failed=%d\n", rc, (int) M.hs_complete(), (int) M.failed); } moved = true; } }
         else { Bytes o = O->take_out(); if (!o.empty()) { if (g_debug) dump("O>M", o); if (M.ssl && !M.failed) { int rc = M.feed(o, k->chunk); if (g_debug) fprintf(stderr, "   M.feed -> rc=%d complete=%d failed=%d\n", rc, (int) M.hs_complete(), (int) M.failed); } moved = true; } }
         return moved;
     }
@@ -480,6 +504,7 @@ static int mx_send_all(Endpoint &M, const Bytes &b, bool use_writebuf, size_t pi
         int32 rc = matrixSslEncodeWritebuf(M.ssl, (uint32) n);
         if (rc < 0) return rc;
         off += n;
+        M.out_pending = true;   // (mxh only drains a DTLS endpoint when output is known to be pending)
         M.pump_out(piece);
     } while (off < b.size());
     return 0;
@@ -528,6 +553,7 @@ static void prop(Tape &t, Ctx &c) {
         oc.verify_host = "localhost";
     }
     oc.sni = "localhost";
+    if (dtls) { oc.dtls_mtu = k.mtu; oc.dtls_cookie = k.os_cookie; matrixDtlsSetPmtu(k.mtu); }
     oc.legacy_server_connect = !G.rfc5746;
     oc.auto_chain = k.os_send_root; oc.tickets = k.os_tickets; oc.ems = k.os_ems; oc.etm = k.os_etm; oc.max_send_fragment = k.os_max_frag;
     std::string oerr;
@@ -628,10 +654,10 @@ static void prop(Tape &t, Ctx &c) {
             if (msg.first == 0) {
                 if (b.empty() && dtls) continue;
                 int rc = mx_send_all(L.M, b, (idx & 1) != 0, k.piece);
+                if (g_debug) fprintf(stderr, "   MatrixSSL app send %zu bytes -> rc=%d, %zu datagrams / %zu stream bytes queued\n", b.size(), rc, L.M.dgram_out.size(), L.M.wire_out.size());
                 VF_CHECK(rc >= 0, "matrixssl-encode-failed", "conn %d: encoding %zu application bytes returned %d (events: %s; openssl alerts %s); %s", conn, b.size(), rc, ev_str(L.M).c_str(), alerts_str(*L.O).c_str(), desc.c_str());
                 m2o.insert(m2o.end(), b.begin(), b.end());
             } else {
-                if (dtls && b.size() > 1000) b.resize(1000);
                 if (!ku_done && k.key_update && idx > 1) { ku_done = true; int kr = L.O->key_update(k.key_update == 2); VF_CHECK(kr >= 0, "harness-openssl-keyupdate-failed", "%s; %s", L.O->error().c_str(), desc.c_str()); }
                 int rc = L.O->write(b.data(), b.size());
                 VF_CHECK(rc == 1, "harness-openssl-write-failed", "conn %d: SSL_write(%zu) -> %d (%s); %s", conn, b.size(), rc, L.O->error().c_str(), desc.c_str());
